@@ -1,5 +1,6 @@
 import NucsModel.Registry
 import NucsModel.Engine.Search
+import NucsModel.Engine.OptTrace
 import NucsModel.MP
 import NucsModel.ProblemOps
 import NucsModel.Examples
@@ -17,6 +18,7 @@ import NucsModel.Propagators.SupportCert
     varheur <name> <costs> <decision> <doms>          a variable heuristic
     solve <shr> <vars> <props> <cfg> <limit>          the solve() generator, `limit` solutions taken
     opt <shr> <vars> <props> <cfg> <v> <min|max>      minimize / maximize
+    opttrace <shr> <vars> <props> <cfg> <v> <min|max> every improving solution in order (what a worker sends)
     split <shr> <vars> <k> <v>                        Problem.split
     mp <solve|min:v|max:v> <k> <inputs>               the multiprocessing parent
 -/
@@ -166,6 +168,14 @@ def step (line : String) : String :=
       match optimize P cfg (parseNat v) (dir == "min") searchFuel searchFuel (State.init P) none with
       | .error e => showEngErr e
       | .ok (best, s) => s!"{match best with | none => "none" | some b => showInts b} {showNats s.stats.toList}"
+    | _, _ => "bad-op"
+  | ["opttrace", shr, vars, props, cfg, v, dir] =>
+    match parseProps props, parseCfg cfg with
+    | some raw, some cfg =>
+      let P := initProblem (parseBox shr) (parseVars vars) raw
+      match optimizeTrace P cfg (parseNat v) (dir == "min") searchFuel searchFuel (State.init P) [] with
+      | .error e => showEngErr e
+      | .ok (tr, s) => s!"{showSols tr} {showNats s.stats.toList}"
     | _, _ => "bad-op"
   | ["example", name, args] =>
     match exampleByName name (parseInts args) with
